@@ -145,6 +145,8 @@ type world struct {
 	valAbi   *abi.ABI
 	stakeAbi *abi.ABI
 	chainID  *big.Int
+	// every key/value of a database on which NewBlockChain has just committed the genesis block
+	genesisDB [][2][]byte
 }
 
 type tmpl struct {
@@ -257,7 +259,7 @@ var alphabet = []tmpl{
 		if err != nil {
 			panic(err)
 		}
-		return sign(types.NewTransaction(n, common.HexToAddress(configs.DefaultStakingContractAddress), kai(11000000), 9000000, two, in), keyB)
+		return sign(types.NewTransaction(n, common.HexToAddress(configs.DefaultStakingContractAddress), kai(13300000), 9000000, two, in), keyB)
 	}},
 	{Name: "startB", From: "B", Nonce: plain, Want: "dep", Make: func(w *world, n uint64) *types.Transaction {
 		in, err := w.valAbi.Pack("start")
